@@ -88,6 +88,8 @@ func NewPipeline(env *Env) *Pipeline {
 		DefaultCrtSecret: env.Cfg.DefaultSSLCertificate,
 		FakeCrtFile:      env.FakeCrt,
 		FakeCAFile:       env.FakeCA,
+		HasGatewayV1:     env.Cfg.HasGatewayV1,
+		HasTCPRouteA2:    env.Cfg.HasTCPRouteA2,
 	}
 	return &Pipeline{Env: env, Log: log, HAProxy: inst.Config(), Opt: opt,
 		Watchers: reconciler.VerifNewWatchers(env.Ctx, env.Cfg, env.Cache)}
